@@ -175,6 +175,7 @@ CHECKS = {
             "design_ref": "DESIGN.md §4 C09",
         },
         "runs": [conc("HarnessC09Quick", ["c09-end"]), conc("HarnessC09NoWatcher", ["c09-end"]), conc("HarnessC09Race", ["c09-race-end"]), conc("HarnessC09EnableCancel", ["c09-enable-cancel-end"]), conc("HarnessC08StackError", ["c08-stackerr-end"]), conc("HarnessC09NoVerify", ["c09-noverify-end"]), conc("HarnessC06DrainOnCancel", ["c06-drain-end"]),
+                 {"entry": M + "/ez.HarnessC18NoWatch", "pkgs": EZP, "must_reach": ["c18-end", "c18-verify-error", "c18-file-error"], "instrument": [M, M + "/sourcewrap", M + "/ez"], "validate": 0},
                  conc("HarnessC09Thorough", ["c09-end"], ["thorough"])],
         "bounds": {"quick": "3 events; 4 Delay x suppress combinations plus SkipInitialVerification with/without suppress; initial validity symbolic; an EnableVerification call abandoned at an arbitrary moment, then retried; Verify fails for an external reason during EnableVerification calls that are documented not to verify", "thorough": "4 events"},
         "outside": "longer event sequences",
@@ -233,6 +234,7 @@ CHECKS = {
             {"entry": M + "/transform.HarnessC10Embedded", "pkgs": TFP, "must_reach": ["c10-embedded-end"]},
             {"entry": M + "/transform.HarnessC10Gen2", "pkgs": TFP, "must_reach": ["c10-gen-end"]},
             {"entry": M + "/transform.HarnessC10TypeSubst", "pkgs": TFP, "must_reach": ["c10-typesubst-end"]},
+            {"entry": M + "/transform.HarnessC10StringCast", "pkgs": TFP, "must_reach": ["c10-stringcast-end"]},
             {"entry": M + "/transform.HarnessC10Gen3", "pkgs": TFP, "must_reach": ["c10-gen-end"], "tiers": ["thorough"]},
         ],
     },
